@@ -347,7 +347,7 @@ def run(ctx):
                         ctx.discrepancy("literal-not-on-line:magic-numbers", where + " (numeric tokens on the line: %r)" % toks, rep, files)
                     ctx.count("construct_checked:magic-numbers")
                 elif fam in ("unwrap-abuse", "clone-abuse", "blocking-async"):
-                    need = {"unwrap-abuse": (".unwrap()", ".expect("), "clone-abuse": (".clone()",), "blocking-async": ("fs::", "sleep(", "net::")}[fam]
+                    need = {"unwrap-abuse": (".unwrap()", ".expect("), "clone-abuse": (".clone()",), "blocking-async": ("fs::", "sleep(", "net::", "TcpStream::", "TcpListener::", "UdpSocket::")}[fam]
                     if not any(n in text for n in need):
                         ctx.discrepancy("call-not-on-line:%s" % fam, where, rep, files)
                     if fx.get("kind") == "rustcalls" and line not in {p[0] for p in fx["items"]}:
